@@ -321,7 +321,7 @@ SPECS["C19"] = dict(
 )
 
 SPECS["C11"] = dict(
-    floors={"ge3_concurrent_streams": 0.3, "foreign_datagram_past_integrity": 0.3},
+    floors={"ge3_concurrent_streams": (0.3, "isolation_cases"), "foreign_datagram_past_integrity": (0.3, "isolation_cases")},
     title="sessions on one socket are isolated; one Accept per new peer",
     level="exploration",
     technique="rapid-generated multi-peer histories (1-8 clients, shared IPs, per-peer fault scripts, reconnects with a new conversation, late accept) with address/conv-keyed payload streams and injected foreign datagrams (replays from strangers, forged conv from the right address, third-address datagrams at dialled sessions); accept-count, content, digest and stall oracles",
